@@ -147,14 +147,49 @@ func RunTxCase(seed uint64, idx, steps int, out *TxOutput) TxCase {
 		}
 	}()
 	saves := []string{"s1", "s2", "S1"}
+	lastSave := make([]string, nconn)
+	type forced struct {
+		ci, k int
+		name  string
+	}
+	var queue []forced
 	var stepTerms []string
 	for i := 0; i < steps; i++ {
 		ci := r.Intn(nconn)
+		forcedK, forcedName := -1, ""
+		if len(queue) > 0 {
+			ci, forcedK, forcedName = queue[0].ci, queue[0].k, queue[0].name
+			queue = queue[1:]
+		} else if inTx[ci] && r.Chance(1, 25) {
+			// the same savepoint name twice, the newer one released, then back to the older one
+			n := saves[r.Intn(len(saves))]
+			queue = []forced{{ci, 99, ""}, {ci, 38, n}, {ci, 48, n}, {ci, 45, n}, {ci, 99, ""}}
+			forcedK, forcedName = 38, n
+		}
 		st := TxStep{Conn: ci, Args: []Arg{}}
 		opTerm := ""
-		k := r.Intn(100)
-		if !inTx[ci] && k >= 30 && k < 52 {
-			k = 0 // outside a transaction mostly begin one or run a statement
+		// weights: begin commit rollback savepoint rollback_to release close (rest: a statement)
+		w := []int{3, 10, 7, 12, 10, 6, 3}
+		if !inTx[ci] {
+			w = []int{35, 2, 2, 2, 2, 1, 2}
+		}
+		bounds := []int{14, 24, 31, 39, 46, 49, 52} // the cut points used below
+		k, x := 99, r.Intn(100)
+		for j, acc := 0, 0; j < len(w); j++ {
+			acc += w[j]
+			if x < acc {
+				k = bounds[j] - 1
+				break
+			}
+		}
+		if forcedK >= 0 {
+			k = forcedK
+		}
+		pick := func() string {
+			if forcedName != "" {
+				return forcedName
+			}
+			return saves[r.Intn(len(saves))]
 		}
 		switch {
 		case k < 14:
@@ -167,17 +202,21 @@ func RunTxCase(seed uint64, idx, steps int, out *TxOutput) TxCase {
 			st.Op, st.SQL, opTerm = "rollback", "ROLLBACK", "ORollback"
 			inTx[ci] = false
 		case k < 39:
-			n := saves[r.Intn(len(saves))]
+			n := pick()
 			st.Op, st.SQL, opTerm = "savepoint", "SAVEPOINT "+n, "(OSave "+coqBytes(strings.ToLower(n))+")"
+			lastSave[ci] = n
 		case k < 46:
-			n := saves[r.Intn(len(saves))]
+			n := pick()
+			if forcedName == "" && lastSave[ci] != "" && r.Chance(2, 3) {
+				n = lastSave[ci]
+			}
 			st.Op, st.SQL = "rollback_to", "ROLLBACK TO "+n
 			if r.Chance(1, 2) {
 				st.SQL = "ROLLBACK TO SAVEPOINT " + n
 			}
 			opTerm = "(ORollbackTo " + coqBytes(strings.ToLower(n)) + ")"
 		case k < 49:
-			n := saves[r.Intn(len(saves))]
+			n := pick()
 			st.Op, st.SQL, opTerm = "release", "RELEASE SAVEPOINT "+n, "(ORelease "+coqBytes(strings.ToLower(n))+")"
 		case k < 52:
 			st.Op, opTerm = "close", "OClose"
